@@ -1120,3 +1120,54 @@ def h_strict( ctx ):
         else:
             res.bad( src, o.stmt, 'open() reachable in states %s' % '/'.join( map( str, sts )), 'a new file may be opened only when INITIAL or SWITCHING; otherwise the open generator (and its pending record) is dropped' )
     return res
+
+
+# ---------------------------------------------------------------------------------------- W-STRIPSET
+
+_TOKENLIKE = __import__( 're' ).compile( r'^\W?[A-Za-z][A-Za-z0-9_]+$' )
+
+
+def _possible_consts( src, fn, e ):
+    """the constant values an expression may take: a constant, or a name that is the target of a for loop over a display of constants /
+    assigned a constant"""
+    v = try_fold( e )
+    if v is not None:
+        return [ v ]
+    out = []
+    if isinstance( e, ast.Name ) and fn is not None:
+        for n in ast.walk( fn ):
+            if isinstance( n, ( ast.For, ast.comprehension )) and isinstance( n.target, ast.Name ) and n.target.id == e.id:
+                seq = try_fold( n.iter )
+                if isinstance( seq, ( list, tuple, set )):
+                    out.extend( seq )
+            if isinstance( n, ast.Assign ) and any( isinstance( t, ast.Name ) and t.id == e.id for t in n.targets ):
+                c = try_fold( n.value )
+                if c is not None:
+                    out.append( c )
+    return out
+
+
+@rule( 'W-STRIPSET', props=( 'C18', 'C17', 'C12' ), floor=3 )
+def w_stripset( ctx ):
+    """where the name of a file, a zone, a type or a path component decides what is selected, a suffix or prefix is removed as a suffix or
+    prefix: no str.strip / lstrip / rstrip is called with a token ( '.gz', '.bz2', 'DINT' ... - directly or as a loop variable over such
+    constants ): strip() removes a SET of characters, so `'blah.2.bz2'.rstrip( '.bz2' )` is `'blah'`, and a rotated file numbered 2, 12, 22
+    is taken for a copy of another one.  Whitespace / single-character / digit sets are what strip() is for and are accepted."""
+    res = Result( 'W-STRIPSET' )
+    for rel in ( 'history/files.py', 'history/times.py', 'misc.py', 'server/enip/client.py', 'server/enip/device.py' ):
+        src = ctx.src( rel )
+        for c in ast.walk( src.tree ):
+            if not ( isinstance( c, ast.Call ) and isinstance( c.func, ast.Attribute ) and c.func.attr in ( 'strip', 'lstrip', 'rstrip' )):
+                continue
+            if not c.args:
+                res.ok( src, c, '%s() without a character set' % c.func.attr, nontrivial=False )
+                continue
+            fn = src.enclosing( c, ( ast.FunctionDef, ast.AsyncFunctionDef ))
+            vals = _possible_consts( src, fn, c.args[0] )
+            tokens = [ v for v in vals if isinstance( v, ( str, bytes )) and len( v ) > 1 and _TOKENLIKE.match( v if isinstance( v, str ) else v.decode( 'latin-1' )) ]
+            if tokens:
+                res.bad( src, c, '%s( %s ) with the token %r' % ( c.func.attr, norm_text( txt( c.args[0] ))[:30], tokens[0] ),
+                         "strip() removes any run of the CHARACTERS of its argument, not the suffix / prefix: names that end in one of those characters lose more than the token ( 'x.2.bz2' -> 'x', 'x.12.bz2' -> 'x.1' ) and are taken for another name" )
+            else:
+                res.ok( src, c, '%s( %s ): a character set' % ( c.func.attr, norm_text( txt( c.args[0] ))[:30] ))
+    return res
